@@ -108,6 +108,15 @@ Upd(s, e) ==
     \* doorkeeper with thousands of keys (filters cleared and rebuilt): a key the cache holds is never refused
     [] e.ev = "adoor" -> Vif(Vif([s EXCEPT !.tid = e.id, !.traces = s.traces + 1], e.refused > 0, "C06", "api_set_false_for_key_the_cache_holds"),
                              e.undeleted > 0, "C01", "api_deleted_key_still_served_by_doorkeeper_cache")
+    \* one write that displaces hundreds of entries (counts only): when Wait has returned the evictions have
+    \* happened and have been reported
+    [] e.ev = "abulk" ->
+         LET s0 == [s EXCEPT !.tid = e.id, !.traces = s.traces + 1]
+             a == Vif(s0, e.est > e.maxsize, "C02", "api_estimated_size_above_maxsize_after_wait")
+             b == Vif(a, e.est > e.maxsize, "C20", "wait_returned_before_the_evictions_of_a_large_displacement_had_happened")
+             c == Vif(b, e.est # e.storedcost - e.notifiedcost, "C20", "wait_returned_before_the_removal_notifications_of_a_large_displacement_were_delivered")
+             d == Vif(c, e.len # e.stored - e.notified, "C05", "api_entries_stored_differ_from_resident_plus_notified_after_large_displacement")
+         IN Vif(d, e.est # e.storedcost - e.notifiedcost, "C16", "api_estimated_size_differs_from_stored_minus_notified_cost")
     [] OTHER -> s
 
 TraceInit == l = 1 /\ st = Init0 /\ done = FALSE
